@@ -138,6 +138,15 @@ def _table(args):
                 p2 = t2._pmf_predict(scores[perm], sensitive_features=[canon[j] for j in perm])
                 if not np.array_equal(p1, p2):
                     out.append(({"api": "ThresholdOptimizer", "kind": "pmf"}, f"{cons}: pmf differs from the canonical-id run", detail))
+                for gsel in range(k):          # predict on the rows of ONE tuple only, and on all but one tuple
+                    for rowsel in ([j for j in range(n) if gi[j] == gsel], [j for j in range(n) if gi[j] != gsel]):
+                        qq = sf.iloc[rowsel] if container == "frame" else sf.to_numpy()[rowsel]
+                        pa = t1._pmf_predict(scores[rowsel], sensitive_features=qq)
+                        pb = t2._pmf_predict(scores[rowsel], sensitive_features=[canon[j] for j in rowsel])
+                        if not np.array_equal(pa, pb):
+                            out.append(({"api": "ThresholdOptimizer", "kind": "pmf_subset"},
+                                        f"{cons}: predicting on a subset of the fit-time tuples ({sorted({tuples[gi[j]] for j in rowsel})}) does not apply the fit-time rules", detail))
+                            break
         except Exception as e:
             out.append(({"api": "ThresholdOptimizer", "kind": "exception"}, f"raised {e!r}", detail))
     return out
